@@ -86,7 +86,12 @@ def opsToJson (op : String) (j : Json) : Option (Except String Json) :=
       -- an option: dump, reload, dump again
       let o ← optOfWire (← j.getObjVal? "opt")
       let d1 := optionDump o
-      let o2 := reloadOption (o.1.map Prod.fst) d1
+      -- `Option(**d)`: the constructor's named parameters are read into slots, every other key goes to
+      -- `extra_data` (the harness passes the parameter names of `Option.__init__` of the current source)
+      let names ← match j.getObjVal? "names" with
+        | .ok (.arr a) => a.toList.mapM fun x => do pure (← x.getStr?).toList
+        | _ => pure (o.1.map Prod.fst)
+      let o2 := reloadOption names d1
       pure (Json.mkObj [("d1", toWire (.obj d1)), ("extra2", toWire (.obj o2.2)), ("d2", toWire (.obj (optionDump o2)))])
   | _ => none
 
